@@ -108,7 +108,11 @@ macro_rules! record_fn {
                     tr.absorb(&b);
                     bytes.push(b.iter().map(|x| *x as u64).collect::<Vec<u64>>());
                 }
+                // (both fractions in lowest terms: TLC's integers are 32-bit)
+                fn gcd(a: usize, b: usize) -> usize { if b == 0 { a.max(1) } else { gcd(b, a % b) } }
                 let (d0, d1) = vk.distance();
+                let (d0, d1) = (d0 / gcd(d0, d1), d1 / gcd(d0, d1));
+                let (dd0, dd1) = (dd0 / gcd(dd0, dd1), dd1 / gcd(dd0, dd1));
                 recs.push(json!({
                     "scheme": scheme, "size": format!("{}[{}]", tag, j), "n_rows": n_rows, "n_cols": n_cols, "n_ext": n_ext,
                     "lam": vk.sec_param(), "d0": d0, "d1": d1, "bits": F::MODULUS_BIT_SIZE,
@@ -147,12 +151,24 @@ fn ligero_ml_decl(c: Option<(usize, usize)>) -> (usize, usize, usize) {
         None => (128, 1, 2),
     }
 }
-// Brakedown's default parameter set (the paper's third row): beta = 0.061, r = 1.521, distance beta / r
-fn brakedown_decl(_c: Option<(usize, usize)>) -> (usize, usize, usize) {
-    (128, 61, 1521)
+// Brakedown's default parameter set (the paper's third row): beta = 0.061, r = 1.521, distance beta / r.
+// Keys built with `BrakedownPCParams::new` (a 2 x 1024 matrix encoded by the Reed-Solomon base case): beta and r as
+// fractions over DIFFERENT denominators, selected by an index into BD_CUSTOM.
+const BD_CUSTOM: [((usize, usize), (usize, usize)); 3] = [((122, 2000), (1521, 1000)), ((61, 1000), (3042, 2000)), ((61, 1000), (3, 2))];
+fn brakedown_decl(c: Option<(usize, usize)>) -> (usize, usize, usize) {
+    match c {
+        Some((l, i)) => {
+            let (b, r) = BD_CUSTOM[i];
+            (l, b.0 * r.1, b.1 * r.0)
+        }
+        None => (128, 61, 1521),
+    }
 }
-fn brakedown_mk(_l: usize, _r: usize) -> Option<ark_poly_commit::linear_codes::BrakedownPCParams<F, MTConfig, ColH<F>>> {
-    None
+fn brakedown_mk(l: usize, i: usize) -> Option<ark_poly_commit::linear_codes::BrakedownPCParams<F, MTConfig, ColH<F>>> {
+    let (b, r) = BD_CUSTOM[i];
+    Some(ark_poly_commit::linear_codes::BrakedownPCParams::<F, MTConfig, ColH<F>>::new(
+        l, (178, 1000), b, r, 2048, 2, 1024, vec![], vec![], vec![], vec![], true, (), (), (),
+    ))
 }
 record_fn!(record_uni, LigeroUni, ark_poly_commit::linear_codes::UnivariateLigero<F, MTConfig, UniPoly<F>, ColH<F>>, ligero_decl, ligero_mk);
 record_fn!(record_ml, LigeroMl, ark_poly_commit::linear_codes::MultilinearLigero<F, MTConfig, MlPoly<F>, ColH<F>>, ligero_ml_decl, ligero_mk);
@@ -180,6 +196,9 @@ pub fn columns(sizes_uni: &[usize], nvs: &[usize], batches: &[Vec<usize>]) -> Ve
         for nv in [6i64, 9] {
             out.extend(record_ml("ligero_ml", &[1], nv, Some((l, r))));
         }
+    }
+    for i in 0..BD_CUSTOM.len() {
+        out.extend(record_bd("brakedown", &[1], 11, Some((32, i))));
     }
     out
 }
